@@ -810,13 +810,38 @@ fn bound_kinds_of(variable: &str, clauses: &[WhereClause], kinds: &mut Vec<Bound
     }
 }
 
+/// The Core kind a record-creating clause gives its handle.
+fn declared_kind_of(clause: &MutationClause) -> Option<BoundKind> {
+    match clause {
+        MutationClause::CreateConcept(_) | MutationClause::UpsertConcept(_) => {
+            Some(BoundKind::Concept)
+        }
+        MutationClause::CreateEvidence(_) => Some(BoundKind::Evidence),
+        MutationClause::CreateAssertion(_) => Some(BoundKind::Assertion),
+        MutationClause::CreateActivity(_) => Some(BoundKind::Activity),
+        MutationClause::EnsureProposition(_) => Some(BoundKind::Proposition),
+        _ => None,
+    }
+}
+
 /// Rejects the UPDATEs an engine must never be asked to perform.
 fn guard_update(statement: &UpdateStatement) -> Result<(), &'static str> {
+    guard_update_as(statement, None)
+}
+
+/// [`guard_update`] for a target whose kind the surrounding plan declares: a
+/// handle bound by `CREATE ASSERTION ?a` is an Assertion whatever the
+/// statement's own WHERE says (or does not say) about it.
+fn guard_update_as(
+    statement: &UpdateStatement,
+    declared: Option<BoundKind>,
+) -> Result<(), &'static str> {
     let target_var = match &statement.target {
         ElementRef::Handle(name) => Some(name.as_str()),
         _ => None,
     };
     let mut bound = Vec::new();
+    bound.extend(declared);
     if let (Some(var), Some(clauses)) = (target_var, &statement.where_clauses) {
         bound_kinds_of(var, clauses, &mut bound);
     }
@@ -1402,6 +1427,22 @@ pub fn validate_plan(statement: &KmlStatement) -> Result<(), KipError> {
             return Err(KipError::duplicate_local_handle(format!(
                 "?{name} is claimed by two clauses in one mutation plan"
             )));
+        }
+    }
+
+    // An UPDATE of a record this plan creates is guarded with the kind the
+    // creating clause declares, wherever in the plan that clause stands.
+    for clause in &statement.clauses {
+        if let MutationClause::Update(update) = clause
+            && let ElementRef::Handle(target) = &update.target
+            && let Some(kind) = statement
+                .clauses
+                .iter()
+                .find(|c| c.handle() == Some(target.as_str()))
+                .and_then(declared_kind_of)
+            && let Err(ctx) = guard_update_as(update, Some(kind))
+        {
+            return Err(KipError::invalid_syntax(ctx));
         }
     }
 
